@@ -1,6 +1,7 @@
 (* wire glue for the decode layer (C19) *)
 From RichModel Require Import Prelude Color Style AnsiDecode FileProxy SpecDecode.
 From RichModel Require DrvColor.
+From RichGen Require FileProxyFacts.
 
 (* style = [color?, bgcolor?, attributes, set_attributes, link?]  (the fields __eq__ compares) *)
 Definition ofSty (s : style) : tree :=
@@ -77,17 +78,36 @@ Fixpoint seq_lines (fix_d8 : bool) (st : style) (lines : list str) : list tree :
   | l :: r => let '(st', rr) := decode_line fix_d8 st l in ofRes ofText rr :: seq_lines fix_d8 st' r
   end.
 
-(* two proxies (sys.stdout, sys.stderr) on one console, as installed by Live._enable_redirect_io:
-   history items [0, k, text] | [1, k]; -> per operation the console.print calls it made *)
-Fixpoint live_run (fix_d8 : bool) (s0 s1 : pstate) (h : list tree) : list tree * pstate * pstate :=
+(* two proxies (sys.stdout, sys.stderr) on one console, as installed by _enable_redirect_io:
+   history items [0, k, text] | [1, k]; -> per operation the console.print calls it made.
+   b0 / b1: stream k is redirected (otherwise the call goes to the raw stream: nothing is printed) *)
+Fixpoint live_run (fix_d8 b0 b1 : bool) (s0 s1 : pstate) (h : list tree) : list tree * pstate * pstate :=
   match h with
   | [] => ([], s0, s1)
   | t :: r =>
       let k := tZ (tNth t 1) in
       let o := if tZ (tNth t 0) =? 0 then Write (tStr (tNth t 2)) else Flush in
-      let '(st', outs) := proxy_step fix_d8 facts_gen (if k =? 0 then s0 else s1) o in
-      let '(rest, a, b) := live_run fix_d8 (if k =? 0 then st' else s0) (if k =? 0 then s1 else st') r in
+      let red := if k =? 0 then b0 else b1 in
+      let '(st', outs) := if red then proxy_step fix_d8 facts_gen (if k =? 0 then s0 else s1) o
+                          else (if k =? 0 then s0 else s1, []) in
+      let '(rest, a, b) := live_run fix_d8 b0 b1 (if k =? 0 then st' else s0) (if k =? 0 then s1 else st') r in
       (ofList ofOut outs :: rest, a, b)
+  end.
+
+Definition rf_of (l : list (bool * bool)) (k : nat) : rfacts :=
+  let p := nth k l (false, true) in mkRF (fst p) (snd p).
+(* start / history / stop, repeated on ONE display object *)
+Fixpoint live_runs (fix_d8 : bool) (rf0 rf1 : rfacts) (r0 r1 : rstate) (runs : list tree) : list tree :=
+  match runs with
+  | [] => []
+  | h :: rest =>
+      let a1 := r_enable rf0 r0 in let b1 := r_enable rf1 r1 in
+      let a2 := r_disable rf0 a1 in let b2 := r_disable rf1 b1 in
+      let red0 := fresh_proxy r0 a1 in let red1 := fresh_proxy r1 b1 in
+      let '(outs, pa, pb) := live_run fix_d8 red0 red1 p_init p_init (tL h) in
+      L [L [ofB red0; ofB red1; ofB (is_raw (r_cur a2)); ofB (is_raw (r_cur b2))];
+         L outs; ofStr (pending pa); ofStr (pending pb)]
+      :: live_runs fix_d8 rf0 rf1 a2 b2 rest
   end.
 
 Definition LINK_ID : str := [48].
@@ -113,9 +133,10 @@ Definition ops : list (string * (tree -> tree)) := [
   ("proxy.run", fun t =>
      let '(st, outs) := proxy_run (tB (tNth t 0)) facts_gen p_init (tList tOp (tNth t 1)) in
      L [ofList ofOut outs; ofStr (pending st)]);
+  (* [fix_d8, kind, [history per run]]  kind 0 Live, 1 Status (wraps a Live), 2 Progress *)
   ("proxy.live", fun t =>
-     let '(outs, a, b) := live_run (tB (tNth t 0)) p_init p_init (tL (tNth t 1)) in
-     L [L outs; ofStr (pending a); ofStr (pending b)]);
+     let facts := if tZ (tNth t 1) =? 2 then FileProxyFacts.PROGRESS_REDIRECT else FileProxyFacts.LIVE_REDIRECT in
+     L (live_runs (tB (tNth t 0)) (rf_of facts 0) (rf_of facts 1) r_init r_init (tL (tNth t 2))));
   ("proxy.facts", fun _ =>
      L [ofB (f_write_decodes facts_gen); ofKw (f_write_kw facts_gen);
         ofB (f_flush_decodes facts_gen); ofKw (f_flush_kw facts_gen)]);
@@ -123,6 +144,7 @@ Definition ops : list (string * (tree -> tree)) := [
   ("spec.decode.roundtrip_ok", fun t =>     (* [lines of runs, decoded line Texts] *)
      ofB (roundtrip_b (tRuns (tNth t 0)) (tList tText (tNth t 1))));
   ("spec.decode.no_crash", fun t => ofB (negb (tZ (tNth t 0) =? 2)));
+  ("spec.proxy.flags", fun t => ofB (forallb tB (tL t)));   (* redirected / restored flags of a run *)
   ("spec.proxy.ok", fun t =>                (* [history, outs, pending] *)
      ofB (proxy_ok_b (tList tOp (tNth t 0)) (tList tOut (tNth t 1)) (tStr (tNth t 2))))
 ].
